@@ -51,6 +51,14 @@ def gen(rng, tier, index):
         if rng.random() < 0.6:
             weights["restart"] = 3  # ... and the controller is restarted now and then: restored nodes sleep and wake like fresh ones
     ops = netgen.make_ops(rng, cfg["version"], rng.randint(15, 60 if tier == "thorough" else 45), weights, nodes=(2, 4), scenario=0.4)
+    if cfg["flavour"] in ("serial", "tcp") and cfg.get("sched") and rng.random() < 0.5:
+        # controller calls for a sleeping node made from a second thread WHILE that node's wake-up is being handled (with another
+        # node's line queued right behind it)
+        ops = netgen.add_races(rng, cfg["version"], ops, "set")
+        if rng.random() < 0.5:
+            cfg["window"] = ["init_smart_sleep_mode", "set_child_value", "handle_smartsleep", "_route_message", "set_child_desired_state",
+                             "is_smart_sleep_node", "handle_heartbeat_response", "handle_pre_sleep_notification"]
+            cfg["sched"] = {"policy": "rw", "seed": rng.getrandbits(32), "p": rng.choice([0.1, 0.25, 0.5])}
     ops = netgen.chunkify(rng, ops)
     if cfg["flavour"] in ("serial", "tcp") and rng.random() < 0.3:
         ops = _with_linkdrop(rng, ops)
